@@ -158,6 +158,12 @@ def _handle_ConnectionUp (event):
     # switch without any links to other switches never causes one.)
     t = Timer(core.openflow_discovery.send_cycle_time + 1, _update_tree,
               kw={'force_dpid':event.dpid})
+  elif any(l.dpid1 == event.dpid or l.dpid2 == event.dpid
+           for l in core.openflow_discovery.adjacency):
+    # A switch we already know links of (it restarted and was back before
+    # its old connection was gone): its ports flood again, and no link
+    # event is going to make us look at them.
+    _update_tree()
 
 
 def _handle_PortStatus (event):
